@@ -136,12 +136,21 @@ Definition nontrivial_case (inp : list Z) : bool :=
   let obs := observe j0 ops in
   negb (Nat.eqb (length (flat_map o_effs obs)) 0) && Nat.leb 2 (changes j0 obs).
 
+Fixpoint eq_listZ (a b : list Z) : bool :=
+  match a, b with
+  | [], [] => true
+  | x :: a', y :: b' => (x =? y) && eq_listZ a' b'
+  | _, _ => false
+  end.
+
 (* the known-finding shapes of the current tree: 2 = a job failed for timeout leaves behind a
-   reservation it created but never recorded (Spec.finding_code). Shape 1 (same-node check cached)
-   was repaired by commit 025e424, so a same-node eviction is a plain violation now. *)
+   reservation it created but never recorded (Spec.finding_code) AND the implementation's whole
+   observable is the one the faithful model predicts for this input — a leak in a history where the
+   model adopts the reservation, records the reference and deletes it is a plain violation.
+   Shape 1 (same-node check cached) was repaired by commit 025e424: a plain violation too. *)
 Definition finding_sig (inp obs : list Z) : Z :=
   let '(j0, ops) := decode inp in
   match parse_obs j0 (length ops) obs with
-  | Some o => if finding_code j0 ops o =? 2 then 2 else 0
+  | Some o => if (finding_code j0 ops o =? 2) && eq_listZ obs (run_case inp) then 2 else 0
   | None => 0
   end.
